@@ -6,6 +6,7 @@ cd "$(dirname "$0")"
 export RUSTUP_TOOLCHAIN=1.88.0 CARGO_NET_OFFLINE=true
 mkdir -p build evidence out
 python3 tools/params.py
+python3 tools/guards.py > build/guards.log
 ( cd coq && coq_makefile -f _CoqProject -o Makefile >/dev/null 2>&1 && timeout 3000 make -j16 > ../build/coq-build.log 2>&1 ) \
   || { tail -40 build/coq-build.log; echo "setup: Coq build failed"; exit 1; }
 sh extract/build.sh
